@@ -49,6 +49,13 @@ type caseIn struct {
 	Traffic    bool   `json:"traffic,omitempty"`      // concurrent upstream chunk traffic
 	BPings     int    `json:"broker_pings,omitempty"` // pings the broker sends on receipt of each client ping
 	LinkFailMs int    `json:"linkfail_ms,omitempty"`  // >0: the link dies loudly this long after the first ping
+	// inbound flood: FloodAtMs after the first ping the broker sends FloodN items of one kind that the
+	// application does not consume (Consume "none") or consumes slowly ("slow"); every ping is answered
+	// at once; the window ends 3 intervals + timeout after the flood and an ordinary request follows
+	FloodKind string `json:"flood_kind,omitempty"` // call | reply | chunk | meta | ack
+	FloodN    int    `json:"flood_n,omitempty"`
+	FloodAtMs int    `json:"flood_at_ms,omitempty"`
+	Consume   string `json:"consume,omitempty"`
 	IntervalNs uint64 `json:"interval_ns,omitempty"`  // announce cases
 	TimeoutNs  uint64 `json:"timeout_ns,omitempty"`
 }
@@ -97,6 +104,8 @@ type obsT struct {
 	bpings    []uint32
 	echo      []uint32
 	closeAt   int // -1 = not closed
+	horizon   int // >0: the window the run actually observed (flood cases)
+	reqOK     bool
 	disc      bool
 	reconnect bool
 	annI      uint64
@@ -120,6 +129,7 @@ func ms(d time.Duration) int { return int(d / time.Millisecond) }
 
 func runTiming(c *caseIn, r *rng.R) (o obsT) {
 	o.closeAt = -1
+	o.reqOK = true
 	var mu sync.Mutex
 	var t0 time.Time
 	var closedAt time.Time
@@ -129,6 +139,7 @@ func runTiming(c *caseIn, r *rng.R) (o obsT) {
 	b := broker.New(nil)
 	b.AutoPong.Store(false)
 	var refuse atomic.Bool
+	var downAlias atomic.Uint32
 	var accepted atomic.Int32
 	b.OnDial = func(int, transport.DialConfig) error {
 		if refuse.Load() {
@@ -215,6 +226,17 @@ func runTiming(c *caseIn, r *rng.R) (o obsT) {
 				SequenceNumber: v.StreamChunk.SequenceNumber, ResultCode: message.ResultCodeSucceeded}}})
 		case *message.UpstreamCloseRequest:
 			s.Send(&message.UpstreamCloseResponse{RequestID: v.RequestID, ResultCode: message.ResultCodeSucceeded})
+		case *message.DownstreamOpenRequest:
+			downAlias.Store(v.DesiredStreamIDAlias)
+			s.Send(&message.DownstreamOpenResponse{RequestID: v.RequestID, AssignedStreamID: streamID,
+				ResultCode: message.ResultCodeSucceeded, ResultString: "OK", ServerTime: time.Unix(1700000000, 0)})
+		case *message.DownstreamResumeRequest:
+			s.Send(&message.DownstreamResumeResponse{RequestID: v.RequestID, ResultCode: message.ResultCodeSucceeded, ResultString: "OK"})
+		case *message.DownstreamChunkAck:
+			s.Send(&message.DownstreamChunkAckComplete{StreamIDAlias: v.StreamIDAlias, AckID: v.AckID,
+				ResultCode: message.ResultCodeSucceeded, ResultString: "OK"})
+		case *message.DownstreamCloseRequest:
+			s.Send(&message.DownstreamCloseResponse{RequestID: v.RequestID, ResultCode: message.ResultCodeSucceeded, ResultString: "OK"})
 		}
 	}
 	release := true
@@ -291,6 +313,61 @@ func runTiming(c *caseIn, r *rng.R) (o obsT) {
 			}
 		}()
 	}
+	reqOK := true
+	var down *iscp.Downstream
+	switch c.FloodKind {
+	case "chunk", "meta":
+		err, blocked := call(func() error {
+			ctx, cancel := context.WithTimeout(context.Background(), wd)
+			defer cancel()
+			var err error
+			down, err = conn.OpenDownstream(ctx, []*message.DownstreamFilter{message.NewDownstreamFilterAllFor("src")})
+			return err
+		})
+		if blocked || err != nil {
+			o.direct = fmt.Sprintf("harness: open downstream failed: %v blocked=%v", err, blocked)
+			return
+		}
+	case "ack":
+		err, blocked := call(func() error {
+			ctx, cancel := context.WithTimeout(context.Background(), wd)
+			defer cancel()
+			_, err := conn.OpenUpstream(ctx, "s", iscp.WithUpstreamFlushPolicyNone(), iscp.WithUpstreamCloseTimeout(100*time.Millisecond))
+			return err
+		})
+		if blocked || err != nil {
+			o.direct = fmt.Sprintf("harness: open upstream failed: %v blocked=%v", err, blocked)
+			return
+		}
+	}
+	if c.FloodN > 0 && c.Consume == "slow" {
+		wg.Add(1)
+		go func() {
+			defer wg.Done()
+			for {
+				select {
+				case <-stop:
+					return
+				default:
+				}
+				ctx, cancel := context.WithTimeout(context.Background(), 20*time.Millisecond)
+				switch c.FloodKind {
+				case "call":
+					conn.ReceiveCall(ctx)
+				case "reply":
+					conn.ReceiveReplyCall(ctx)
+				case "chunk":
+					down.ReadDataPoints(ctx)
+				case "meta":
+					down.ReadMetadata(ctx)
+				default:
+					<-ctx.Done()
+				}
+				cancel()
+				time.Sleep(2 * time.Millisecond)
+			}
+		}()
+	}
 	// wait for the first ping
 	if !broker.WaitFor(wd, func() bool { mu.Lock(); defer mu.Unlock(); return len(o.ptimes) > 0 }) {
 		o.direct = "no ping reached the broker within the watchdog after Connect returned"
@@ -306,6 +383,46 @@ func runTiming(c *caseIn, r *rng.R) (o obsT) {
 			defer tm.Stop()
 		}
 	}
+	if c.FloodN > 0 {
+		s0 := b.WaitSession(0, wd)
+		floodDone := make(chan time.Time, 1)
+		go func() {
+			time.Sleep(time.Until(start.Add(time.Duration(c.FloodAtMs) * time.Millisecond)))
+			srcStream := uuid.New()
+			for i := 0; i < c.FloodN && s0 != nil; i++ {
+				var m message.Message
+				switch c.FloodKind {
+				case "call":
+					m = &message.DownstreamCall{CallID: fmt.Sprintf("c%d", i), SourceNodeID: "src", Name: "n", Type: "t", Payload: []byte{byte(i)}}
+				case "reply":
+					m = &message.DownstreamCall{CallID: fmt.Sprintf("c%d", i), RequestCallID: fmt.Sprintf("nobody-%d", i), SourceNodeID: "src", Name: "n", Type: "t", Payload: []byte{byte(i)}}
+				case "chunk":
+					m = &message.DownstreamChunk{StreamIDAlias: downAlias.Load(),
+						UpstreamOrAlias: &message.UpstreamInfo{SessionID: "s", SourceNodeID: "src", StreamID: srcStream},
+						StreamChunk: &message.StreamChunk{SequenceNumber: uint32(i + 1), DataPointGroups: []*message.DataPointGroup{{
+							DataIDOrAlias: &message.DataID{Name: "n", Type: "t"},
+							DataPoints:    []*message.DataPoint{{ElapsedTime: time.Duration(i), Payload: []byte{byte(i)}}}}}}}
+				case "meta":
+					m = &message.DownstreamMetadata{RequestID: message.RequestID(2001 + 2*i), StreamIDAlias: downAlias.Load(), SourceNodeID: "src",
+						Metadata: &message.BaseTime{SessionID: "s", Name: "m", Priority: 1, ElapsedTime: time.Duration(i), BaseTime: time.Unix(1700000000, 0).UTC()}}
+				default: // ack
+					m = &message.UpstreamChunkAck{StreamIDAlias: 1, Results: []*message.UpstreamChunkResult{{
+						SequenceNumber: uint32(100000 + i), ResultCode: message.ResultCodeSucceeded}}}
+				}
+				if s0.Send(m) != nil {
+					break
+				}
+			}
+			floodDone <- time.Now()
+		}()
+		select {
+		case fd := <-floodDone:
+			end = fd.Add(time.Duration(3*c.IntervalMs+c.TimeoutMs+10) * time.Millisecond)
+		case <-time.After(wd):
+			o.direct = "harness: the broker could not send the flood within the watchdog"
+			return
+		}
+	}
 	for time.Now().Before(end) {
 		mu.Lock()
 		cl := !closedAt.IsZero()
@@ -315,15 +432,30 @@ func runTiming(c *caseIn, r *rng.R) (o obsT) {
 		}
 		time.Sleep(500 * time.Microsecond)
 	}
+	if c.FloodN > 0 {
+		// an ordinary request must still work after the flood
+		err, blocked := call(func() error {
+			ctx, cancel := context.WithTimeout(context.Background(), time.Second)
+			defer cancel()
+			_, err := conn.OpenUpstream(ctx, "after-flood", iscp.WithUpstreamFlushPolicyNone(), iscp.WithUpstreamCloseTimeout(100*time.Millisecond))
+			return err
+		})
+		reqOK = !blocked && err == nil
+	}
 	// the client's pongs for the broker's last pings may still be under way
 	broker.WaitFor(50*time.Millisecond, func() bool {
 		mu.Lock()
 		defer mu.Unlock()
 		return len(o.echo) >= len(o.bpings) || !closedAt.IsZero()
 	})
+	obsEnd := time.Now()
 	mu.Lock()
 	defer mu.Unlock()
 	res := o
+	res.reqOK = reqOK
+	if c.FloodN > 0 {
+		res.horizon = ms(obsEnd.Sub(t0))
+	}
 	res.ptimes = append([]int(nil), o.ptimes...)
 	res.pongs = append([]int(nil), o.pongs...)
 	res.pids = append([]uint32(nil), o.pids...)
@@ -338,6 +470,7 @@ func runTiming(c *caseIn, r *rng.R) (o obsT) {
 
 func runAnnounce(c *caseIn) (o obsT) {
 	o.closeAt = -1
+	o.reqOK = true
 	got := make(chan [2]uint64, 4)
 	b := broker.New(func(s *broker.Session, m message.Message) {
 		if v, ok := m.(*message.ConnectRequest); ok {
@@ -389,6 +522,12 @@ func miss(c *caseIn, o *obsT) string {
 		return ""
 	}
 	H, slack, early := c.HorizonMs, c.SlackMs, c.EarlyMs
+	if o.horizon > 0 {
+		H = o.horizon
+	}
+	if !o.reqOK {
+		return "ok:request-after-flood"
+	}
 	// the script as the broker realised it (the same resolution as ka_corr in Model/KeepAlive.v)
 	rc := *c
 	rc.Delays = nil
@@ -481,7 +620,7 @@ func miss(c *caseIn, o *obsT) string {
 			if !notBefore {
 				return "ok:closed-before-timeout"
 			}
-			if p := o.pongs[n-1]; p >= 0 && !(base+c.TimeoutMs <= p+early) {
+			if p := o.pongs[n-1]; p >= 0 && !(base+c.TimeoutMs <= p+early && o.ptimes[n-1]+c.TimeoutMs <= p+early) {
 				return "ok:last-ping-answered-in-time"
 			}
 		}
@@ -515,7 +654,7 @@ func u32List(xs []uint32) string {
 
 func term(c *caseIn, o *obsT) string {
 	if c.Kind == "announce" {
-		return fmt.Sprintf("mkKaCase 1 %d %d (mkScript [] None None) 0 0 0 0 [] [] [] true None [] false false (%d, %d)",
+		return fmt.Sprintf("mkKaCase 1 %d %d (mkScript [] None None) 0 0 0 0 [] [] [] true None [] false false true (%d, %d)",
 			c.IntervalNs, c.TimeoutNs, o.annI, o.annT)
 	}
 	pidsOK := true
@@ -524,10 +663,14 @@ func term(c *caseIn, o *obsT) string {
 			pidsOK = false
 		}
 	}
-	return fmt.Sprintf("mkKaCase 0 %d %d (mkScript %s %s %s) %d %d %d %d %s %s %s %s %s %s %s %s (%d, %d)",
+	H := c.HorizonMs
+	if o.horizon > 0 {
+		H = o.horizon
+	}
+	return fmt.Sprintf("mkKaCase 0 %d %d (mkScript %s %s %s) %d %d %d %d %s %s %s %s %s %s %s %s %s (%d, %d)",
 		c.IntervalMs, c.TimeoutMs, optList(c.Delays), coqfmt.Opt(fmt.Sprint(c.Rest), c.Rest >= 0), coqfmt.Opt(fmt.Sprint(c.LinkFailMs), c.LinkFailMs > 0),
-		c.HorizonMs, c.SlackMs, c.EarlyMs, c.GuardMs, u32List(o.bpings), intList(o.ptimes), optList(o.pongs), coqfmt.Bool(pidsOK),
-		coqfmt.Opt(fmt.Sprint(o.closeAt), o.closeAt >= 0), u32List(o.echo), coqfmt.Bool(o.disc), coqfmt.Bool(o.reconnect), o.annI, o.annT)
+		H, c.SlackMs, c.EarlyMs, c.GuardMs, u32List(o.bpings), intList(o.ptimes), optList(o.pongs), coqfmt.Bool(pidsOK),
+		coqfmt.Opt(fmt.Sprint(o.closeAt), o.closeAt >= 0), u32List(o.echo), coqfmt.Bool(o.disc), coqfmt.Bool(o.reconnect), coqfmt.Bool(o.reqOK), o.annI, o.annT)
 }
 
 // ---------------------------------------------------------------- generators
@@ -600,6 +743,25 @@ func genLoud(r *rng.R, slack, early int) *caseIn {
 		_, mc := expect(c, 1<<20)
 		c.HorizonMs = mc + slack + 100
 		return c
+	}
+}
+
+// inbound flood: every (kind, N) with an application that never consumes, plus slow consumers
+func genFloods(slack, early int, add func(*caseIn, string)) {
+	k := 0
+	for _, kind := range []string{"call", "reply", "chunk", "meta", "ack"} {
+		for _, n := range []int{1030, 1100, 2100} {
+			cons := []string{"none"}
+			if n == 2100 && kind != "ack" {
+				cons = append(cons, "slow")
+			}
+			for _, cs := range cons {
+				c := &caseIn{Kind: "timing", IntervalMs: []int{40, 80}[k%2], TimeoutMs: []int{20, 60, 60}[k%3], SlackMs: slack, EarlyMs: early,
+					Rest: 0, BPings: 1, FloodKind: kind, FloodN: n, FloodAtMs: 20, Consume: cs}
+				k++
+				add(c, "flood-"+kind)
+			}
+		}
 	}
 }
 
@@ -701,6 +863,7 @@ func main() {
 		for i := 0; i < ndead; i++ {
 			add(genDead(r.Fork(), *slack, *early), "dead")
 		}
+		genFloods(*slack, *early, add)
 		for i := 0; i < nloud; i++ {
 			add(genLoud(r.Fork(), *slack, *early), "loud")
 		}
@@ -788,10 +951,10 @@ func main() {
 		}
 		obs := map[string]interface{}{"ping_times": o.ptimes, "pong_times": o.pongs, "ping_ids": o.pids, "close": o.closeAt,
 			"broker_pings": o.bpings, "echo": o.echo, "disconnected_event": o.disc, "reconnect": o.reconnect,
-			"announced": []uint64{o.annI, o.annT}, "attempts": o.attempts}
+			"announced": []uint64{o.annI, o.annT}, "attempts": o.attempts, "request_after_flood_ok": o.reqOK, "observed_window_ms": o.horizon}
 		w.Add(coqfmt.Case{Term: term(j.c, o), Input: j.c, Observed: obs, Seed: j.seed, Nontrivial: nt, Kind: j.kind, Direct: o.direct})
 	}
-	rule := "timing: interval {40,80,150} ms x timeout {20,60} ms; the broker answers k=0..5 pings after 0/0.5x/0.9x timeout and then stops or answers after 1.5x timeout (dead), or keeps answering in time (alive), or answers in time while the link dies loudly between two pings or while a pong is under way (loud); half with concurrent chunk traffic and an open request, 0-2 broker pings per client ping; grid of every (interval, timeout, k<=3, delay, stop/late) plus random. announce: fixed table (1500 ms, 999 ms, 1 s, 2 h, 0 = default, 2^32 s wrap, 2^24 s - 1 ns) plus random durations. non-trivial = at least two pings reached the broker (timing) / a duration that is not a whole number of seconds (announce); distinct = distinct Coq case terms"
+	rule := "timing: interval {40,80,150} ms x timeout {20,60} ms; the broker answers k=0..5 pings after 0/0.5x/0.9x timeout and then stops or answers after 1.5x timeout (dead), or keeps answering in time (alive), or answers in time while the link dies loudly between two pings or while a pong is under way (loud); inbound flood: the broker sends 1030/1100/2100 request calls / reply calls / downstream chunks / downstream metadata / upstream chunk acks that the application never consumes (or consumes slowly) while answering every ping at once - the connection must stay for 3 intervals + timeout after the flood and an ordinary request must then succeed; half with concurrent chunk traffic and an open request, 0-2 broker pings per client ping; grid of every (interval, timeout, k<=3, delay, stop/late) plus random. announce: fixed table (1500 ms, 999 ms, 1 s, 2 h, 0 = default, 2^32 s wrap, 2^24 s - 1 ns) plus random durations. non-trivial = at least two pings reached the broker (timing) / a duration that is not a whole number of seconds (announce); distinct = distinct Coq case terms"
 	extra := map[string]interface{}{"missed_first_run": missed, "retried": retried, "recovered_on_retry": recovered, "slack_ms": *slack, "early_ms": *early, "guard_ms": *guard, "parallel": *par}
 	if err := w.Flush(*seed, *tier, rule, false, extra); err != nil {
 		fmt.Fprintln(os.Stderr, err)
